@@ -746,6 +746,46 @@ def rule_d_len(prog, res, m):
 
 
 # ------------------------------------------------------------------ scanner
+def _every_candidate_is_tried(f, fa, res, cb, nb, loc, ct, names, is_preamble_fact):
+    """S-cand (completeness): once the byte at the scan position is 0xD3, nothing else decides whether MessageFrame::new is called there - no
+    path from the successful preamble test goes back to the loop head, or leaves the function, without passing the call.  (A look-ahead or
+    plausibility filter in front of the call makes the scanner skip candidates that new() would accept.)"""
+    ok = False
+    detail = "no preamble test found"
+    header = list(f.loops().keys())[0] if f.loops() else None
+    rets = set(f.return_blocks())
+    for x in sorted(f.reachable()):
+        t = f.term(x)
+        if t["k"] != "switch" or not f.dominates(x, cb) or x == cb:
+            continue
+        for s_ in f.succ(x):
+            eg = [fact_of_guard(g) for g in fa.edge_guard(x, s_)]
+            if not any(is_preamble_fact(fc) for fc in eg):
+                continue
+            # s_ = the block entered when the byte is 0xD3: explore without passing cb
+            seen = set()
+            st = [s_]
+            bad = None
+            while st:
+                y = st.pop()
+                if y in seen or y == cb:
+                    continue
+                seen.add(y)
+                if y == header or y in rets:
+                    bad = y
+                    break
+                ty = f.term(y)
+                if ty["k"] in ("unreachable",) or f.blocks[y].get("cleanup"):
+                    continue
+                for z in f.succ(y):
+                    st.append(z)
+            ok = bad is None
+            detail = "every path from the preamble test reaches the call" if ok else \
+                "a path from the preamble test reaches block %d (%s) without calling MessageFrame::new (line %s)" % (
+                    bad, "the loop head" if bad == header else "a return", f.term(bad).get("line") or f.blocks[bad]["stmts"][0].get("line") if f.blocks[bad]["stmts"] else "?")
+    res.ob("S-cand", "scan | every position holding 0xD3 is handed to new(): no other test can skip a candidate", ok, detail, loc(ct["line"]))
+
+
 def rules_scan(prog, res, m=None):
     """C05 rules on next_msg_frame."""
     f = prog.fn(SCAN)
@@ -827,6 +867,8 @@ def rules_scan(prog, res, m=None):
             okc = dict(la) == {start: 1, off: 1} and ca == 0
         res.ob("S-cand", "scan | candidate = data[i..] with i = resume offset + position found", okc,
                "argument: %s" % show(arg, names), loc(ct["line"]), sample=show(arg, names))
+        _every_candidate_is_tried(f, fa, res, cb, pb, loc, ct, names,
+                                  lambda fc: len(fc) == 4 and fc[0] == "discr" and fc[1] is item and ((fc[2] == "eq" and fc[3] == 1) or (fc[2] == "ne" and 0 in fc[3])))
         # resume offset: 0 initially, candidate + 1 after a rejected candidate
         okres = False
         rd_ = ""
@@ -901,6 +943,8 @@ def rules_scan(prog, res, m=None):
                     okpre = True
         res.ob("S-cand", "scan | new() is tried exactly at positions holding 0xD3", okpre,
                "guards: " + "; ".join(_fact_str(fc, names) for fc, g in gs), loc(ct["line"]))
+        _every_candidate_is_tried(f, fa, res, cb, nb, loc, ct, names,
+                                  lambda fc: len(fc) == 3 and fc[0] == "Eq" and ((is_const(fc[2]) and const_val(fc[2]) == 0xD3) or (is_const(fc[1]) and const_val(fc[1]) == 0xD3)))
     # classify returns
     result = fa.defterm(ct["dest"]["local"], cb, len(f.blocks[cb]["stmts"]), "call")
     rd = mk("discr", result)
